@@ -85,6 +85,10 @@ func (e *Enc) verifyFunction(fn *ssa.Function, con *Contract) {
 	for _, r := range con.Requires {
 		e.assume(e.evalBool(env, r))
 	}
+	for _, r := range con.Assumes {
+		e.assume(e.evalBool(env, r))
+		e.trusted["assumes:"+name+": "+r.Text]++
+	}
 	e.topName = name
 	e.topFn = fn
 	e.inputs = e.collectInputs(fn, params, entry)
